@@ -582,6 +582,23 @@ example : concOf ⟨.number, .n (.fin false 1 1 64)⟩ = some (.num (.fin false 
       [.numLower (.known (.fin false 1 0 64)) false, .notNull]).isOk = true := by
   decide
 
+-- `rejects_null_contradiction`, `rejects_notNull_contradiction`: a receiver that is definitely not null / definitely null
+-- (recorded range satisfiable) — the hypotheses hold and the calls panic under the code's oracle
+/-- an unknown number known to be null -/
+def sampleNull : Builder := ⟨⟨.number, .unk .unref⟩, [], .num .t none none⟩
+example : γB { sampleNum with wip := .num .f none none } .null = false ∧
+    (@step textOracle { sampleNum with wip := .num .f none none } .null).isPanic = true := by decide
+example : (∃ x, x ≠ .null ∧ Conc.kindOk sampleNull.orig.ty x = true ∧ rangeOk sampleNull.wip x = true) ∧
+    (∀ x, x ≠ .null → γB sampleNull x = false) ∧ (@step textOracle sampleNull .notNull).isPanic = true := by
+  refine ⟨⟨.num (.fin false 0 0 64), by decide, by decide, by decide⟩, fun x hx => ?_, by decide⟩
+  cases x <;> first | exact absurd rfl hx | rfl
+
+-- `known_violation_rejected`: the known number 2 violates `x ≥ 3`; the chain panics
+example : concOf ⟨.number, .n (.fin false 1 1 64)⟩ = some (.num (.fin false 1 1 64)) ∧
+    [RefineCall.notNull, .numLower (.known (.fin false 3 0 64)) true].any (fun c => !den c (.num (.fin false 1 1 64))) = true ∧
+    (@refine textOracle ⟨.number, .n (.fin false 1 1 64)⟩ [.notNull, .numLower (.known (.fin false 3 0 64)) true]).isPanic = true := by
+  decide
+
 -- the streaming law is satisfiable, with a boundary present
 example : 0 ≤ Ext.inert.lastBoundary (Ext.inert.nfc [97, 45]) := by decide
 
@@ -907,6 +924,14 @@ alike and differ in value (cf. `narrows_text_counterexample`). -/
 theorem textFree_fails_on_finding :
     textFreeB ⟨⟨.number, .unk .unref⟩, [], .num .u none (some ⟨.fin false 205 (-11) 8, false⟩)⟩
       [.numUpper (.known (.fin false 13 (-7) 4)) false] = false := by decide
+
+-- inputs that carry NO number (strings, collections, nullable kinds) are text-free by computation, so the theorems
+-- above are about the code as it runs for every such input: e.g. an incompatible prefix after a recorded one, and a
+-- length bound below the recorded one, are contradictions the code's builder rejects (by
+-- `rejects_contradiction_code_textfree`)
+example : textFreeB ⟨⟨.string, .unk .unref⟩, [], .str .u "ab"⟩ [.stringPrefixFull "ax"] = true ∧
+    textFreeB sampleList [.lenUpper 1] = true ∧ (@step textOracle sampleList (.lenUpper 1)).isPanic = true :=
+  ⟨rfl, rfl, rfl⟩
 
 end BridgeTextFree
 
